@@ -566,6 +566,17 @@ def gen_dead_arm(loader, check, replay_on=True):
     c06.gen_selected(loader, check, replay_on)
 
 
+def gen_printing(loader, check, replay_on=True):
+    """the statement comments of the READ_STATEMENTS layout print nodes: printing must not spend an operand's consuming read (C11's printer contract)"""
+    from . import c11
+    saved = getattr(check, "ob_filter", None)
+    check.ob_filter = r"#comment\.pure|#comment\.total"
+    try:
+        c11.gen_comments(loader, check, replay_on)
+    finally:
+        check.ob_filter = saved
+
+
 def gen_same_operand(loader, check, replay_on=True):
     """`x op x`: the SAME operand node in both positions of a binary node (both arms of ?:, both sides of a comparison ...). Each position
     reads it once - two reads, two distinct texts, both embedded; on a real variable-backed operand exactly one of them is raw."""
@@ -678,6 +689,7 @@ def tasks():
     ts += [("contracts.c12", "gen_dead_arm", {})]
     ts += [("contracts.c12", "gen_history", {})]
     ts += [("contracts.c12", "gen_same_operand", {})]
+    ts += [("contracts.c12", "gen_printing", {})]
     return ts
 
 
@@ -697,6 +709,7 @@ def generate_reduced(loader, check):
     gen_dead_arm(loader, check, False)
     gen_history(loader, check, False)
     gen_same_operand(loader, check, False)
+    gen_printing(loader, check, False)
 
 
 def run(check: Check):
